@@ -24,7 +24,7 @@ structure Dir (S R : Ep) (wF wB : List Pdu) : Prop where
   vr : R.vr = R.gR % 16
   vra : R.vra = R.gRA % 16
   ord : S.gSA ≤ R.gRA ∧ R.gRA ≤ R.gR ∧ R.gR ≤ S.gS ∧ S.gS ≤ S.gSA + S.sendWin
-  cnt : R.st = .shutdown ∨ R.gRA + R.confs + (rqMsgs R.rq).length = R.gR
+  cnt : R.st = .shutdown ∨ R.st = .disconnect ∨ R.gRA + R.confs + (rqMsgs R.rq).length = R.gR
   rqm : R.st = .established → R.rq.length = (rqMsgs R.rq).length
   bnd : R.bound = false → R.st = .shutdown
   num : R.st = .established → numbered R.gR (iPart wF ++ sqI S.sq) ∧
@@ -182,8 +182,8 @@ theorem Dir.leaveR {S R R' : Ep} {wF wB : List Pdu} (h : Dir S R wF wB)
     (h8 : R'.gFrmr = R.gFrmr ∧ R'.gDiscard = R.gDiscard ∧ R'.gOverrun = R.gOverrun)
     (hst : R'.st ≠ .established)
     (hb : R'.bound = false → R'.st = .shutdown)
-    (hrq : (R'.st = .shutdown ∧ rqMsgs R'.rq = []) ∨
-           (R.st ≠ .shutdown ∧ R'.confs = R.confs ∧ rqMsgs R'.rq = rqMsgs R.rq)) : Dir S R' wF wB := by
+    (hrq : ((R'.st = .shutdown ∨ R'.st = .disconnect) ∧ rqMsgs R'.rq = []) ∨
+           (R.st = .established ∧ R'.confs = R.confs ∧ rqMsgs R'.rq = rqMsgs R.rq)) : Dir S R' wF wB := by
   obtain ⟨hwin, hvs, hvsa, hvr, hvra, hord, hcnt, hrqm, hbnd, hnum, hack, hmiu, hsqe, hcons, hfl⟩ := h
   refine ⟨?_, hvs, hvsa, ?_, ?_, ?_, ?_, fun he => absurd he hst, hb, fun he => absurd he hst, ?_, hmiu, hsqe, ?_, ?_⟩
   · rw [h1, h2]; exact hwin
@@ -191,10 +191,13 @@ theorem Dir.leaveR {S R R' : Ep} {wF wB : List Pdu} (h : Dir S R wF wB)
   · rw [h4, h6]; exact hvra
   · rw [h6, h5]; exact hord
   · rcases hrq with ⟨hs, _⟩ | ⟨hs, hc, hm⟩
-    · exact Or.inl hs
-    · rcases hcnt with hc' | hc'
-      · exact absurd hc' hs
-      · right; rw [h6, hc, hm, h5]; exact hc'
+    · rcases hs with hs | hs
+      · exact Or.inl hs
+      · exact Or.inr (Or.inl hs)
+    · rcases hcnt with hc' | hc' | hc'
+      · rw [hs] at hc'; cases hc'
+      · rw [hs] at hc'; cases hc'
+      · right; right; rw [h6, hc, hm, h5]; exact hc'
   · rw [h6]; exact hack
   · obtain ⟨tail, c1, _⟩ := hcons
     rw [h7, if_neg hst]
@@ -269,15 +272,16 @@ theorem Dir.send {S R : Ep} {wF wB : List Pdu} (m : Bytes) (h : Dir S R wF wB) :
 
 /-- the application takes a message from the receive queue -/
 theorem Dir.recvMsg {S R : Ep} {wF wB : List Pdu} (d : Bytes) (rest : List Rq) (h : Dir S R wF wB)
-    (hst : R.st ≠ .shutdown) (hrq : R.rq = .msg d :: rest) :
+    (hst : R.st ≠ .shutdown) (hst2 : R.st ≠ .disconnect) (hrq : R.rq = .msg d :: rest) :
     R.confs + 1 ≤ R.recvWin ∧
     Dir S { R with rq := rest, confs := R.confs + 1, delivered := R.delivered ++ [d] } wF wB := by
   obtain ⟨hwin, hvs, hvsa, hvr, hvra, hord, hcnt, hrqm, hbnd, hnum, hack, hmiu, hsqe, hcons, hfl⟩ := h
   have hc : R.gRA + R.confs + (rqMsgs rest).length + 1 = R.gR := by
-    rcases hcnt with hc | hc
+    rcases hcnt with hc | hc | hc
     · exact absurd hc hst
+    · exact absurd hc hst2
     · rw [hrq] at hc; simp [rqMsgs] at hc; omega
-  refine ⟨by omega, ⟨hwin, hvs, hvsa, hvr, hvra, hord, Or.inr (by simp; omega), ?_, hbnd, hnum, hack, hmiu, hsqe, ?_, hfl⟩⟩
+  refine ⟨by omega, ⟨hwin, hvs, hvsa, hvr, hvra, hord, Or.inr (Or.inr (by simp; omega)), ?_, hbnd, hnum, hack, hmiu, hsqe, ?_, hfl⟩⟩
   · intro he; have := hrqm he; rw [hrq] at this; simp [rqMsgs] at this; exact this
   · obtain ⟨tail, c1, c2⟩ := hcons
     refine ⟨tail, ?_, c2⟩
@@ -288,11 +292,12 @@ theorem Dir.confirm {S R : Ep} {wF wB wB' : List Pdu} (h : Dir S R wF wB) (hst :
     (hB : nrPart wB' = nrPart wB ++ [R.confirm.vra]) : Dir S R.confirm wF wB' := by
   obtain ⟨hwin, hvs, hvsa, hvr, hvra, hord, hcnt, hrqm, hbnd, hnum, hack, hmiu, hsqe, hcons, hfl⟩ := h
   have hc : R.gRA + R.confs + (rqMsgs R.rq).length = R.gR := by
-    rcases hcnt with hc | hc
+    rcases hcnt with hc | hc | hc
+    · rw [hst] at hc; cases hc
     · rw [hst] at hc; cases hc
     · exact hc
   have hv : R.confirm.vra = (R.gRA + R.confs) % 16 := by simp [Ep.confirm, hvra]
-  refine ⟨hwin, hvs, hvsa, hvr, hv, ?_, Or.inr ?_, hrqm, hbnd, hnum, ?_, hmiu, hsqe, hcons, hfl⟩
+  refine ⟨hwin, hvs, hvsa, hvr, hv, ?_, Or.inr (Or.inr ?_), hrqm, hbnd, hnum, ?_, hmiu, hsqe, hcons, hfl⟩
   · simp [Ep.confirm]; omega
   · simp [Ep.confirm]; omega
   · rw [hB, hv]; exact acksOk_snoc _ _ _ _ hack
@@ -359,12 +364,13 @@ theorem Dir.enqI {S R : Ep} {wF wF' wB : List Pdu} (ns : Nat) (d : Bytes) (h : D
   rw [hF] at n1 n2 n3
   simp only [List.cons_append, numbered, List.length_cons, List.length_append] at n1 n2 n3
   have hc : R.gRA + R.confs + (rqMsgs R.rq).length = R.gR := by
-    rcases hcnt with hc | hc
+    rcases hcnt with hc | hc | hc
+    · rw [hst] at hc; cases hc
     · rw [hst] at hc; cases hc
     · exact hc
   have hm : d.length ≤ S.sendMiu := hmiu (ns, d) (by rw [hF]; simp)
   have hq := hrqm hst
-  refine ⟨by omega, by rw [n1.1, hvr], by omega, ⟨hwin, hvs, hvsa, ?_, hvra, ?_, Or.inr ?_, ?_, hbnd, ?_, hack, ?_, hsqe, ?_, hfl⟩⟩
+  refine ⟨by omega, by rw [n1.1, hvr], by omega, ⟨hwin, hvs, hvsa, ?_, hvra, ?_, Or.inr (Or.inr ?_), ?_, hbnd, ?_, hack, ?_, hsqe, ?_, hfl⟩⟩
   · simp [hvr]
   · simp; omega
   · simp [rqMsgs_append, rqMsgs]; omega
@@ -428,7 +434,7 @@ theorem Pair.shutdown {a a' b : Ep} {wab wba : List Pdu} (h : Pair a b wab wba)
     (r8 : a'.gFrmr = a.gFrmr ∧ a'.gDiscard = a.gDiscard ∧ a'.gOverrun = a.gOverrun)
     (hst : a'.st = .shutdown) (hsq : a'.sq = []) (hrq : a'.rq = []) : Pair a' b wab wba :=
   ⟨h.1.leaveS h1 h2 h3 h4 h5 h6 h7 (by rw [hst]; decide) (by rw [hsq]; rfl),
-   h.2.leaveR r1 r2 r3 r4 r5 r6 r7 r8 (by rw [hst]; decide) (fun _ => hst) (Or.inl ⟨hst, by rw [hrq]; rfl⟩)⟩
+   h.2.leaveR r1 r2 r3 r4 r5 r6 r7 r8 (by rw [hst]; decide) (fun _ => hst) (Or.inl ⟨Or.inl hst, by rw [hrq]; rfl⟩)⟩
 
 theorem Pair.recv {a b : Ep} {wab wba : List Pdu} (h : Pair a b wab wba) : Pair a.recv.1 b wab wba := by
   unfold Ep.recv
@@ -439,10 +445,12 @@ theorem Pair.recv {a b : Ep} {wab wba : List Pdu} (h : Pair a b wab wba) : Pair 
   rename_i hb hst
   have hns : a.st ≠ .shutdown := by
     intro hs; apply hst; rw [hs]; decide
+  have hnd : a.st ≠ .disconnect := by
+    intro hs; apply hst; rw [hs]; decide
   split
   · exact h
   · rename_i d rest hrq
-    obtain ⟨hle, hd⟩ := h.2.recvMsg d rest hns hrq
+    obtain ⟨hle, hd⟩ := h.2.recvMsg d rest hns hnd hrq
     split
     · omega
     · exact ⟨h.1.frame ⟨rfl, rfl, rfl, rfl, rfl, rfl, rfl, rfl, rfl⟩ (REq.rfl' _) rfl rfl, hd⟩
@@ -462,15 +470,11 @@ theorem Pair.close {a b : Ep} {wab wba : List Pdu} (h : Pair a b wab wba) : Pair
   · exact h
   split
   · rename_i hst
-    dsimp only
-    split
-    · rename_i hrq
-      refine ⟨h.1.leaveS rfl rfl rfl rfl rfl rfl rfl (by simp) rfl,
-        h.2.leaveR rfl rfl rfl rfl rfl rfl rfl ⟨rfl, rfl, rfl⟩ (by simp) ?_ (Or.inr ⟨by rw [hst]; decide, rfl, rfl⟩)⟩
-      intro hb
-      have := h.2.bnd hb
-      rw [hst] at this; cases this
-    · exact h.shutdown rfl rfl rfl rfl rfl rfl rfl rfl rfl rfl rfl rfl rfl rfl ⟨rfl, rfl, rfl⟩ rfl rfl rfl
+    refine ⟨h.1.leaveS rfl rfl rfl rfl rfl rfl rfl (by simp) rfl,
+      h.2.leaveR rfl rfl rfl rfl rfl rfl rfl ⟨rfl, rfl, rfl⟩ (by simp) ?_ (Or.inl ⟨Or.inr rfl, rfl⟩)⟩
+    intro hb
+    have := h.2.bnd hb
+    rw [hst] at this; cases this
   · exact h.shutdown rfl rfl rfl rfl rfl rfl rfl rfl rfl rfl rfl rfl rfl rfl ⟨rfl, rfl, rfl⟩ rfl rfl rfl
 
 theorem Pair.closeFin {a b : Ep} {wab wba : List Pdu} (h : Pair a b wab wba) : Pair a.closeFin.1 b wab wba := by
@@ -625,7 +629,7 @@ theorem Pair.enq {a b : Ep} {wab : List Pdu} {p : Pdu} {rest : List Pdu} (h : Pa
         ⟨h.1.frame (SEq.rfl' _) (REq.rfl' _) rfl rfl, h.2.frame (SEq.rfl' _) (REq.rfl' _) rfl rfl⟩
       refine ⟨h'.1.leaveS rfl rfl rfl rfl rfl rfl rfl (by simp [Ep.enqEst]) rfl,
         h'.2.leaveR rfl rfl rfl rfl rfl rfl rfl ⟨rfl, rfl, rfl⟩ (by simp [Ep.enqEst]) ?_
-          (Or.inr ⟨by rw [hst]; decide, rfl, rfl⟩)⟩
+          (Or.inr ⟨hst, rfl, rfl⟩)⟩
       intro hb
       have := h.2.bnd hb
       rw [hst] at this; cases this
@@ -683,7 +687,7 @@ theorem run_inv (s : Sys) (ops : List (Side × Op)) (h : Inv s) : Inv (run s ops
 
 theorem init_dir (sm rm sw rw sm' rm' sw' rw' : Nat) (h2 : sw ≤ 15) (h3 : sw = rw') (h4 : sm ≤ rm') :
     Dir (Ep.init sm rm sw rw) (Ep.init sm' rm' sw' rw') [] [] := by
-  refine ⟨⟨h2, h3, h4⟩, rfl, rfl, rfl, rfl, ?_, Or.inr rfl, fun _ => rfl, ?_, ?_, ?_, ?_, ?_, ?_, ⟨rfl, rfl, rfl⟩⟩
+  refine ⟨⟨h2, h3, h4⟩, rfl, rfl, rfl, rfl, ?_, Or.inr (Or.inr rfl), fun _ => rfl, ?_, ?_, ?_, ?_, ?_, ?_, ⟨rfl, rfl, rfl⟩⟩
   · simp [Ep.init]
   · intro hb; simp [Ep.init] at hb
   · intro _; simp [Ep.init, iPart, sqI, numbered]
@@ -751,7 +755,7 @@ theorem EpLen.close {e : Ep} (h : EpLen e) : EpLen e.close.1 := by
   split
   · exact h
   split
-  · dsimp only; split <;> exact h
+  · exact h
   · exact h
 
 theorem EpLen.closeFin {e : Ep} (h : EpLen e) : EpLen e.closeFin.1 := by
